@@ -17,14 +17,19 @@ EXPLANATION = (
     "episode_timesteps > h; (R3) the episode tail is enabled on termination and disabled on truncation over min(episode_timesteps, "
     "horizon) slots, and the episode counter is reset in that branch; (R4) every _sample_idx draws start indices from mask_ only; (R5) "
     "window indices are (start[:, None] + arange(horizon)) mod current_len; (R6) the no-intermediate view takes observation/action from "
-    "the first and next_observation from the last step of the same window."
+    "the first and next_observation from the last step of the same window. Forms read in addition: a per-field loop of add_sample is "
+    "evaluated per documented field (the successor row's observation may be stored inside it); a truncated episode end may leave the "
+    "store of 0 out (those slots were cleared on write and are never enabled: a no-op); a cache of the masked priorities kept by the "
+    "prioritised sampler must be refreshed by every writer of mask_ (derived-state coherence, as for the uniform start cache): it is "
+    "stale when no writer touches what the reuse condition reads and the compared buffer quantity is a fixpoint of the write "
+    "(current_len of a full ring)."
 )
 TRUSTED = ["numpy nonzero / modular indexing semantics"]
 RULES = {
     "R1-mask-clear-on-write": "mask_[insert_idx] = 0 precedes the advance; the extra successor row's mask is cleared too",
     "R2-enable-offset-agreement": "mask_[(insert_idx - H) % buffer_size] = 1 is guarded by episode_timesteps > H with the same H (strict)",
-    "R3-tail": "in the episode-end branch the last min(episode_timesteps, horizon) slots get 0 iff truncated else 1, episode_timesteps is reset to 0, the successor row stores next_observation as observation and reward 0",
-    "R4-start-from-mask": "uniform: nz = nonzero(mask_)[0], start = nz[rng.integers(0, len(nz))]; PER: sampler receives (current_len, ..., mask_)",
+    "R3-tail": "in the episode-end branch the last min(episode_timesteps, horizon) slots get 0 iff truncated else 1 (the store of 0 may be left out: a no-op given R1/R2), episode_timesteps is reset to 0, the successor row stores next_observation as observation and reward 0",
+    "R4-start-from-mask": "uniform: nz = nonzero(mask_)[0], start = nz[rng.integers(0, len(nz))]; PER: sampler receives (current_len, ..., mask_) and multiplies the priorities by the mask on every path on which a mask may be given; state derived from mask_ (cached starts, cached cumulative masked priorities) is refreshed by every writer of mask_",
     "R5-window-indices": "indices = (start[:, newaxis] + arange(horizon)[newaxis]) % current_len",
     "R6-no-intermediate-view": "observation, action -> indices[:, 0]; next_observation -> indices[:, -1]; everything else the full window",
 }
@@ -221,6 +226,83 @@ def _field_indices(cfg, stmts, fn):
     return out
 
 
+def _unroll_field_loops(fn):
+    """Private copy of ``fn`` in which every loop over the fields of self.buffer whose body does nothing but store into the storage
+    array of the current field, under conditions that depend on the field name only, is replaced by its bodies specialised for the
+    documented fields (the same key-specialised partial evaluation as for the views of sample_batch): `for k in self.buffer: if k ==
+    "observation": self.buffer[k][i] = x else: ...` then reads like the straight-line stores it performs.  Any other loop is kept as
+    it is.  The original tree is not touched; returns ``fn`` itself when nothing was unrolled."""
+    from ..expand import clone
+    new = clone(fn)
+    changed = []
+
+    def storage(e, kv, vv):
+        return (isinstance(e, ast.Subscript) and dotted(e.value) == "self.buffer" and isinstance(e.slice, ast.Name) and e.slice.id == kv) or (vv is not None and isinstance(e, ast.Name) and e.id == vv)
+
+    def subst(st, k, kv, vv):
+        class T(ast.NodeTransformer):
+            def visit_IfExp(self, n):
+                v = _const_test(n.test, k, {}, kv)      # a choice that depends on the field name only is made here
+                return self.generic_visit(n) if v is None else self.visit(n.body if v else n.orelse)
+
+            def visit_Name(self, n):
+                if n.id == kv and isinstance(n.ctx, ast.Load):
+                    return ast.copy_location(ast.Constant(value=k), n)
+                if vv is not None and n.id == vv and isinstance(n.ctx, ast.Load):
+                    return ast.copy_location(ast.Subscript(value=ast.Attribute(value=ast.Name(id="self", ctx=ast.Load()), attr="buffer", ctx=ast.Load()), slice=ast.Constant(value=k), ctx=ast.Load()), n)
+                return n
+        return ast.fix_missing_locations(T().visit(clone(st)))
+
+    def spec(body, k, kv, vv):
+        out = []
+        for st in body:
+            if isinstance(st, ast.If):
+                v = _const_test(st.test, k, {}, kv)
+                r = None if v is None else spec(st.body if v else st.orelse, k, kv, vv)
+                if r is None:
+                    return None
+                out += r
+            elif isinstance(st, ast.Pass) or (isinstance(st, ast.Expr) and isinstance(st.value, ast.Constant)):
+                continue
+            elif isinstance(st, ast.Assign) and len(st.targets) == 1 and isinstance(st.targets[0], ast.Subscript) and storage(st.targets[0].value, kv, vv) \
+                    and not any(isinstance(x, ast.Name) and x.id in (kv, vv) and not isinstance(x.ctx, ast.Load) for x in ast.walk(st)):
+                out.append(subst(st, k, kv, vv))
+            else:
+                return None
+        return out
+
+    def block(stmts):
+        out = []
+        for st in stmts:
+            fl = _field_loop(st.target, st.iter) if isinstance(st, ast.For) and not st.orelse else None
+            if fl is not None:
+                bodies = [spec(st.body, k, fl[0], fl[1]) for k in _KEYS]
+                if all(b is not None for b in bodies):
+                    for b in bodies:
+                        out += [ast.copy_location(x, st) if not hasattr(x, "lineno") else x for x in b]
+                    changed.append(st)
+                    continue
+            for f_ in ("body", "orelse", "finalbody"):
+                if isinstance(getattr(st, f_, None), list) and not isinstance(st, (ast.FunctionDef, ast.AsyncFunctionDef, ast.ClassDef)):
+                    setattr(st, f_, block(getattr(st, f_)))
+            for h in getattr(st, "handlers", []) or []:
+                h.body = block(h.body)
+            out.append(st)
+        return out or ([ast.copy_location(ast.Pass(), stmts[0])] if stmts else [])
+    new.body = block(new.body)
+    if not changed:
+        return fn
+    ast.fix_missing_locations(new)
+    for parent in ast.walk(new):
+        for child in ast.iter_child_nodes(parent):
+            child._parent = parent
+    new._parent = getattr(fn, "_parent", None)
+    if hasattr(fn, "_module"):
+        new._module = fn._module
+    fn._c04_unrolled = new     # keeps the copy alive: CFGs are cached by object identity
+    return new
+
+
 _UNREAD = re.compile(r"φ\(|⟦|__i\d+|\biter\(|λ\[")
 
 
@@ -313,7 +395,7 @@ def _add_sample_effects(ck, repo, nf):
     every mask effect of the path was read (positive evidence: the path, the slot, the value); anything unread is undecided."""
     from ..sympath import enumerate_paths, PathEval
     from ..sem import _negate, _flatten_and
-    fn = _m(repo, CQ, "add_sample")
+    fn = _unroll_field_loops(_m(repo, CQ, "add_sample"))
     mi = fn._module
     cfg = nf.cfg_of(fn)
     site = CQ + ".add_sample"
@@ -671,39 +753,45 @@ def _add_sample_effects(ck, repo, nf):
             succ_clear = [e_ for e_ in succ if e_[1] == "0"]
             ob("R1-mask-clear-on-write", "clear-successor-row", bool(succ_clear), f"[{tag}] successor-row clear {[(e_[3], e_[1]) for e_ in succ_clear]}", "the extra successor row written at an episode end must be excluded from the start indices")
             cand = [e_ for e_ in effs if e_[4] is not None]
-            if len({e_[2] for e_ in cand}) != 1:
-                raise AnalysisError(f"{site}: {len(cand)} tail effects on an episode-end path ({[(e_[3], e_[1]) for e_ in cand][:3]}): the vectorised tail store was restructured (unrecognised idiom)")
-            _tres, tval, pos_tail, tidx, (ttop, tn) = cand[0]
-            tail_ok = cand[0] in tails
-            # the value as a function of the flags, on the flag assignments this path admits
-            te = _parse_canon(tval)
-            wrong = None
-            for w in worlds:
-                try:
-                    if te is None:
-                        raise _Unk()
-                    gv = _tv(te, w, flag_of)
-                except _Unk:
-                    raise AnalysisError(f"{site}: tail value `{tval[:100]}` is not readable as a function of the episode flags (unrecognised form)")
-                if gv not in (0, 1):
-                    raise AnalysisError(f"{site}: tail value `{tval[:100]}` (unrecognised form)")
-                if gv != (0 if w["truncated"] else 1):
-                    wrong = (w, gv)
-            if wrong is not None:
-                # the flag assignments were enumerated from the conditions that could be evaluated; a condition on the transition
-                # that could not (a helper applied to it, a membership test) may exclude exactly the assignment that looks wrong
-                unread_conds = [l for l in lits if (set(explicit) | ({KW} if KW else set())) & _toks(l) and all(lit_value(l, w_) is None for w_ in worlds)]
-                if unread_conds:
-                    raise AnalysisError(f"{site}: tail value `{tval[:60]}` under the condition(s) {unread_conds[:2]} on the transition (unrecognised form)")
-            ob("R3-tail", "truncated-disables", wrong is None, f"[{tag}] tail value = {tval}" + (f"; writes {wrong[1]} when terminated={wrong[0]['terminated']}, truncated={wrong[0]['truncated']}" if wrong else ""),
-               "truncated tails must be masked out (0), terminated tails enabled (1)")
-            if not tail_ok and (unparsed or not evidence(tidx)):
-                raise AnalysisError(f"{site}: tail index `{tidx[:120]}` (unrecognised form)")
-            ob("R3-tail", "last-min(len,horizon)-slots", tail_ok, f"[{tag}] tail index = {tidx}: {tn} slots, the newest is {ttop}", f"must be the last min(episode_timesteps, horizon) written slots: {S(TAIL_TXT)}")
-            # the clear of the written slot precedes the tail store (which may re-enable that very slot)
-            if clears:
-                late = [e_ for e_ in clears if e_[2] > pos_tail]
-                ob("R3-tail", "tail-after-clear", not late, f"[{tag}] clear at effect {[e_[2] for e_ in clears]}, tail at effect {pos_tail}", "the tail must be marked after the written slot was cleared, otherwise the clear wipes the last start of a terminated episode")
+            if not cand and all(w["truncated"] for w in worlds):
+                # a truncated episode end without any tail store: the documented store writes 0 into the newest min(episode_timesteps,
+                # horizon) slots of the episode; each of them was cleared when it was written (R1) and a slot is enabled `horizon` steps
+                # after its write at the earliest (R2), i.e. never for these: the store of 0 is a no-op and may be left out
+                ob("R3-tail", "truncated-disables", True, f"[{tag}] no tail store at a truncated episode end: the newest slots were cleared on write and are never enabled", "")
+            else:
+                if len({e_[2] for e_ in cand}) != 1:
+                    raise AnalysisError(f"{site}: {len(cand)} tail effects on an episode-end path ({[(e_[3], e_[1]) for e_ in cand][:3]}): the vectorised tail store was restructured (unrecognised idiom)")
+                _tres, tval, pos_tail, tidx, (ttop, tn) = cand[0]
+                tail_ok = cand[0] in tails
+                # the value as a function of the flags, on the flag assignments this path admits
+                te = _parse_canon(tval)
+                wrong = None
+                for w in worlds:
+                    try:
+                        if te is None:
+                            raise _Unk()
+                        gv = _tv(te, w, flag_of)
+                    except _Unk:
+                        raise AnalysisError(f"{site}: tail value `{tval[:100]}` is not readable as a function of the episode flags (unrecognised form)")
+                    if gv not in (0, 1):
+                        raise AnalysisError(f"{site}: tail value `{tval[:100]}` (unrecognised form)")
+                    if gv != (0 if w["truncated"] else 1):
+                        wrong = (w, gv)
+                if wrong is not None:
+                    # the flag assignments were enumerated from the conditions that could be evaluated; a condition on the transition
+                    # that could not (a helper applied to it, a membership test) may exclude exactly the assignment that looks wrong
+                    unread_conds = [l for l in lits if (set(explicit) | ({KW} if KW else set())) & _toks(l) and all(lit_value(l, w_) is None for w_ in worlds)]
+                    if unread_conds:
+                        raise AnalysisError(f"{site}: tail value `{tval[:60]}` under the condition(s) {unread_conds[:2]} on the transition (unrecognised form)")
+                ob("R3-tail", "truncated-disables", wrong is None, f"[{tag}] tail value = {tval}" + (f"; writes {wrong[1]} when terminated={wrong[0]['terminated']}, truncated={wrong[0]['truncated']}" if wrong else ""),
+                   "truncated tails must be masked out (0), terminated tails enabled (1)")
+                if not tail_ok and (unparsed or not evidence(tidx)):
+                    raise AnalysisError(f"{site}: tail index `{tidx[:120]}` (unrecognised form)")
+                ob("R3-tail", "last-min(len,horizon)-slots", tail_ok, f"[{tag}] tail index = {tidx}: {tn} slots, the newest is {ttop}", f"must be the last min(episode_timesteps, horizon) written slots: {S(TAIL_TXT)}")
+                # the clear of the written slot precedes the tail store (which may re-enable that very slot)
+                if clears:
+                    late = [e_ for e_ in clears if e_[2] > pos_tail]
+                    ob("R3-tail", "tail-after-clear", not late, f"[{tag}] clear at effect {[e_[2] for e_ in clears]}, tail at effect {pos_tail}", "the tail must be marked after the written slot was cleared, otherwise the clear wipes the last start of a terminated episode")
             extra = [e_ for e_ in other if e_ not in cand]
             if extra:
                 ob("R3-tail", "no-other-mask-effects", False, f"[{tag}] other mask effects {[(e_[3], e_[1]) for e_ in extra]}", "mask entries other than the written slot, the successor row, the horizon-delayed start and the episode tail change at an episode end")
@@ -721,6 +809,8 @@ def _add_sample_effects(ck, repo, nf):
             if so:
                 obs_seen = True
                 r_, ix, v = so[-1]   # the last store to the successor row's observation decides its content
+                if KW is not None:
+                    v = re.sub(rf"\bdict\({re.escape(KW)}\)\[", f"{KW}[", v)     # an entry of a shallow copy that was not reassigned is the original's entry
                 bad_slot = [x for x in so if x[0] != R_NEXT]
                 if bad_slot and not all(evidence(x[1]) for x in bad_slot):
                     raise AnalysisError(f"{site}: store `buffer['observation'][{bad_slot[0][1][:60]}]` (unrecognised form)")
@@ -832,6 +922,209 @@ def _uniform_start(ck, repo, nf):
     raise AnalysisError(f"{site}: returns `{got[:100]}` (unrecognised form)")
 
 
+def _cache_coherence(repo, nf, PER, PQ, pb, cached, conds, binding, call, s3, n3, len_ok, MK_):
+    """Derived-state coherence of a cache of the masked priorities kept by the prioritised sampler.
+
+    ``cached``: attributes of the sampler's object that hold a value computed from the mask at an earlier call and from which the path
+    with the branch conditions ``conds`` draws the start indices without looking at the mask again.  The reuse is coherent when every
+    method of the buffer that writes mask_ refreshes the cache (writes the attribute on every path).  It is provably stale when no writer
+    of mask_ writes any attribute the reuse condition reads AND every quantity of the buffer that the condition compares can be left
+    unchanged by a write of mask_ (`current_len' = min(current_len + 1, buffer_size)` is a fixpoint for the full buffer).  Returns
+    ("ok",) or ("stale", attribute, construct, reason); anything else is undecided (AnalysisError)."""
+    from ..sympath import enumerate_paths, PathEval
+    site = "PriorityBuffer.prioritized_sampling"
+    A = cached[0]
+
+    def und(msg):
+        raise AnalysisError(f"{site}: start indices are drawn from the cached `self.{A}` (computed from the mask at an earlier call); {msg} (unrecognised form)")
+    if len(cached) != 1 or any(c_ is None or _unread(c_) for c_, _l in conds):
+        und("the reuse condition could not be read")
+    ctoks = set().union(*[_toks(c_) for c_, _l in conds]) if conds else set()
+    k_attrs = {A} | {x_ for c_, _l in conds for x_ in re.findall(r"self\.(\w+)", c_)}
+    k_params = [p_ for p_ in _own_params(pb) if p_ in ctoks]
+    if MK_ in k_params or any(p_ not in binding for p_ in k_params):
+        und(f"the reuse condition {[c_ for c_, _l in conds][:2]} looks at the mask itself")
+    recv = dotted(call.func.value) if isinstance(call.func, ast.Attribute) else None
+    if recv is None or not recv.startswith("self."):
+        und("the sampler is not reached through an attribute of the buffer")
+
+    def attr_writes(fnode, depth=0):
+        """Statements of a method of the sampler's class that write one of the attributes the reuse condition reads."""
+        out = []
+        for x in ast.walk(fnode):
+            ts = x.targets if isinstance(x, (ast.Assign, ast.Delete)) else [x.target] if isinstance(x, (ast.AugAssign, ast.AnnAssign)) else []
+            for t_ in ts:
+                for y in ([t_] + (list(t_.elts) if isinstance(t_, (ast.Tuple, ast.List)) else [])):
+                    base = y.value if isinstance(y, ast.Subscript) else y
+                    if isinstance(base, ast.Attribute) and dotted(base.value) == "self" and base.attr in k_attrs:
+                        out.append((x, base.attr))
+            if isinstance(x, ast.Call) and isinstance(x.func, ast.Attribute) and dotted(x.func.value) == "self" and depth < 3:
+                m_ = repo.method(PQ, x.func.attr)
+                if m_ is None:
+                    und(f"`{short(x, 50)}` is not a method of the sampler's class")
+                if m_[1] is not fnode and attr_writes(m_[1], depth + 1):
+                    out.append((x, "?"))
+        return out
+    # the methods of the buffer that write mask_
+    mro = repo.mro(PER)
+
+    def mask_stores(fnode):
+        al = {t_.id for x in ast.walk(fnode) if isinstance(x, ast.Assign) and dotted(x.value) == "self.mask_" for t_ in x.targets if isinstance(t_, ast.Name)}
+        return [x for x in ast.walk(fnode) if isinstance(x, (ast.Assign, ast.AugAssign)) for t_ in (x.targets if isinstance(x, ast.Assign) else [x.target])
+                if isinstance(t_, ast.Subscript) and (dotted(t_.value) == "self.mask_" or (isinstance(t_.value, ast.Name) and t_.value.id in al))]
+    # a refresh on the sampling side (the method that calls the sampler, or one from which it is reached) is another protocol: not read
+    sampler_name = call.func.attr
+    meths = [(c_, m_) for c_ in mro for m_ in repo.cls(c_).body if isinstance(m_, ast.FunctionDef)]
+    reach = set()
+    grow = True
+    while grow:
+        grow = False
+        for c_, m_ in meths:
+            if m_.name in reach:
+                continue
+            for x in ast.walk(m_):
+                if isinstance(x, ast.Call) and isinstance(x.func, ast.Attribute) and ((dotted(x.func.value) == recv and x.func.attr == sampler_name) or (dotted(x.func.value) == "self" and x.func.attr in reach)):
+                    reach.add(m_.name)
+                    grow = True
+                    break
+    for c_, m_ in meths:
+        if m_.name not in reach:
+            continue
+        for x in ast.walk(m_):
+            if isinstance(x, ast.Call) and isinstance(x.func, ast.Attribute) and dotted(x.func.value) == recv and x.func.attr != sampler_name:
+                pm = repo.method(PQ, x.func.attr)
+                if pm is None or attr_writes(pm[1]):
+                    und(f"`{short(x, 50)}` in {m_.name} may refresh the cache before sampling")
+            ts = x.targets if isinstance(x, (ast.Assign, ast.Delete)) else [x.target] if isinstance(x, (ast.AugAssign, ast.AnnAssign)) else []
+            for t_ in ts:
+                base = t_.value if isinstance(t_, ast.Subscript) else t_
+                if isinstance(base, ast.Attribute) and dotted(base.value) == recv and base.attr in k_attrs:
+                    und(f"`{short(x, 50)}` in {m_.name} may refresh the cache before sampling")
+    writers = sorted({m_.name for c_ in mro for m_ in repo.cls(c_).body if isinstance(m_, ast.FunctionDef) and m_.name != "__init__" and mask_stores(m_)})
+    if not writers:
+        und("no method of the buffer with a direct store into mask_ was found")
+    refreshed, witness = True, None
+    for name in writers:
+        chain = []
+        for c_ in mro:
+            m_ = repo.method(c_, name, inherited=False)
+            if m_ is not None:
+                m_[1]._module = repo.cls(c_)._module
+                chain.append((c_, m_[1]))
+        sites = {}    # id(method) -> CFG nodes that refresh the cache on every path through the callee
+        weak = False  # a write that may refresh (conditional, or of another attribute the condition reads)
+        for ci, (c_, fnode) in enumerate(chain):
+            cfg_ = nf.cfg_of(fnode)
+            for nd in cfg_.nodes:
+                if nd.kind != "stmt" or nd.ast is None:
+                    continue
+                for x in ast.walk(nd.ast):
+                    if isinstance(x, ast.Call) and isinstance(x.func, ast.Attribute):
+                        rv = x.func.value
+                        if isinstance(rv, ast.Call) and isinstance(rv.func, ast.Name) and rv.func.id == "super":
+                            if x.func.attr != name or ci + 1 >= len(chain):
+                                und(f"`{short(x, 50)}` in {name} is not followed")
+                            continue
+                        if dotted(rv) == recv:
+                            m_ = repo.method(PQ, x.func.attr)
+                            if m_ is None:
+                                und(f"`{short(x, 50)}` is not a method of the sampler's class")
+                            ws = attr_writes(m_[1])
+                            if ws:
+                                ccfg = nf.cfg_of(m_[1])
+                                direct = {ccfg.stmt_node[id(w_)] for w_, a_ in ws if a_ == A and not isinstance(w_, ast.Call) and id(w_) in ccfg.stmt_node
+                                          and any(isinstance(t_, ast.Attribute) for t_ in (w_.targets if isinstance(w_, (ast.Assign, ast.Delete)) else [w_.target]))}
+                                if direct and ccfg.paths_avoiding(ccfg.entry, ccfg.exit, direct) is None:
+                                    sites.setdefault(id(fnode), set()).add(nd.id)
+                                else:
+                                    weak = True
+                            continue
+                        if dotted(rv) == "self" and x.func.attr not in ("get", "items", "keys", "values"):
+                            und(f"`{short(x, 50)}` in {name} is not followed")
+                        if any(dotted(a_) in ("self", recv) for a_ in list(x.args) + [k_.value for k_ in x.keywords]):
+                            und(f"`{short(x, 50)}` in {name} receives the buffer / the sampler's object")
+                    ts = x.targets if isinstance(x, (ast.Assign, ast.Delete)) else [x.target] if isinstance(x, (ast.AugAssign, ast.AnnAssign)) else []
+                    for t_ in ts:
+                        base = t_.value if isinstance(t_, ast.Subscript) else t_
+                        if isinstance(base, ast.Attribute) and dotted(base.value) == recv and base.attr in k_attrs:
+                            if base.attr == A and not isinstance(t_, ast.Subscript):
+                                sites.setdefault(id(fnode), set()).add(nd.id)
+                            else:
+                                weak = True
+        eff_c, eff = chain[0]
+        ecfg = nf.cfg_of(eff)
+        covered = bool(sites.get(id(eff))) and ecfg.paths_avoiding(ecfg.entry, ecfg.exit, sites[id(eff)]) is None
+        if covered:
+            continue
+        refreshed = False
+        if weak or sites:
+            und(f"{name} writes mask_ and refreshes the cache only on some paths / through other attributes")
+        # nothing on any path of this writer touches what the reuse condition reads on the sampler's object: can the quantities of the
+        # buffer that the condition compares stay the same as well?
+        keys = []
+        for p_ in k_params:
+            v_ = nf.poly(binding[p_], s3, n3.id).canon()
+            attr = "current_len" if v_ in len_ok else v_[5:] if re.fullmatch(r"self\.\w+", v_) else None
+            if attr is None or attr == "mask_":
+                und(f"the reuse condition compares `{p_}` <- {v_[:60]}")
+            keys.append((p_, attr))
+        holder = next(((c_, f_) for c_, f_ in chain if mask_stores(f_)), None)
+        if holder is None or len(keys) > 1:
+            und("the reuse condition compares several quantities of the buffer")
+        hfn = _unroll_field_loops(holder[1])
+        hfn._module = holder[1]._module
+        hcfg = nf.cfg_of(hfn)
+        hsite = f"{holder[0]}.{name}"
+        rets = {n.id for n in hcfg.nodes if n.kind == "stmt" and isinstance(n.ast, ast.Return)} or {hcfg.exit}
+        try:
+            hpaths = enumerate_paths(hcfg, hcfg.entry, rets, max_paths=40000)
+        except RuntimeError:
+            und(f"too many paths through {name}")
+        sc0 = Scope(None, hfn._module, {}, hsite)
+        for hp in hpaths:
+            pe = PathEval(nf, hcfg, hfn._module, hsite, {})
+            for nid, lab in hp[:-1]:
+                pe.step(nid, lab)
+            if not any(b_ == "self.mask_" and v_.canon() == "0" for _n, b_, _i, v_ in pe.effects):
+                continue     # the witness is a path that disables a start index
+            world = []
+            for p_, attr in keys:
+                old = f"self.{attr}"
+                fin = pe.store.get(old)
+                if fin is None:
+                    world.append(f"{old} is not written")
+                    continue
+                oldp = nf.poly(parse_expr(old), sc0, None)
+                if (fin - oldp).is_zero():
+                    world.append(f"{old}' = {old}")
+                    continue
+                m_ = nf.meta.get(fin.single_atom() or "", {})
+                fix = None
+                if m_.get("fn") in ("min", "minimum") and len(m_.get("args", [])) == 2 and not m_.get("kws"):
+                    for x_, y_ in (m_["args"], m_["args"][::-1]):
+                        if old in x_.atoms() and old not in y_.atoms() and not _unread(y_.canon()):
+                            d_ = x_.subst({old: y_}) - y_
+                            if d_.is_const() and d_.const_value() > 0:
+                                fix = y_.canon()
+                if fix is None:
+                    world = None
+                    break
+                world.append(f"{old}' = {fin.canon()} = {old} once {old} = {fix}")
+            if world is not None:
+                witness = (name, holder[0].rsplit(".", 1)[-1], world)
+                break
+        if witness is None:
+            und(f"every write of mask_ in {name} changes a quantity the reuse condition compares")
+    if refreshed:
+        return ("ok",)
+    name, hcls, world = witness
+    reuse = " and ".join(("" if l_ else "not ") + c_ for c_, l_ in conds)
+    return ("stale", A, f"start indices drawn from the cached self.{A} while {reuse[:160]}; {hcls}.{name} writes mask_; {'; '.join(world)[:200]}",
+            f"`self.{A}` caches the masked priorities of an earlier call; {name} disables start indices in mask_ (the slot being overwritten, truncated tails) but neither it nor anything it calls "
+            f"writes `{A}` or another attribute the reuse condition reads, and the compared quantity can stay unchanged ({'; '.join(world)[:160]}): sampling after such an add still draws the disabled starts, "
+            "i.e. windows that cross the write position into overwritten data")
+
+
 def _prioritised_start(ck, repo, nf):
     # ---- R4 (prioritised) -----------------------------------------------------------------------------------------
     PER = RB + "SubtrajectoryReplayBufferPER"
@@ -890,27 +1183,52 @@ def _prioritised_start(ck, repo, nf):
             pass
     masked_paths = 0
     unmasked = []
+    evald = []
     for pth in enumerate_paths(cpb, cpb.entry, {prets[0].id}):
-        lits = []
-        for nid, lab in pth:
+        lits, conds = [], []
+        pe = PathEval(nf, cpb, mipb, "ps", env)
+        for nid, lab in pth[:-1]:
             nd = cpb.nodes[nid]
             if nd.kind == "test" and lab in (True, False):
                 lits += [(t_, v_ == True) for t_, v_ in cpb._lits(nd.ast.test, lab, nid)]
+                try:
+                    conds.append((pe.ev(nd.ast.test).canon(), lab))
+                except Exception:
+                    conds.append((None, lab))
+            pe.step(nid, lab)
+        evald.append((lits, conds, pe))
+    # attributes of the sampler's object that some path leaves holding a value computed from the mask: a cache of the masked priorities
+    derived = {k_[5:] for _l, _c, pe in evald for k_, v_ in pe.store.items() if re.fullmatch(r"self\.\w+", k_) and any(f_ in v_.canon() for f_ in masked_forms)}
+    stale = None
+    for lits, conds, pe in evald:
+        absent = (f"{MK_} is None", True) in lits or (f"{MK_} is not None", False) in lits
         mask_given = (f"{MK_} is not None", True) in lits or (f"{MK_} is None", False) in lits
-        if not mask_given:
+        # a path that never asks whether a mask was given runs the same with a mask: it is read like the mask-given paths
+        untested = not any(MK_ in _toks(t_) for t_, _v in lits)
+        if absent or not (mask_given or untested):
             continue
-        pe = PathEval(nf, cpb, mipb, "ps", env).run(pth[:-1])
         txt = pe.ev(prets[0].ast.value).canon()
         for k, v in pe.store.items():
             txt = txt.replace(k, v.canon())
+        if not mask_given and "self." not in txt:
+            continue     # e.g. an early exit for the empty buffer: nothing is drawn from the object's state on this path
         masked_paths += 1
         if any(f_ in txt for f_ in masked_forms):
             continue
         used = any(MK_ in _toks(t_) or MK_ in _toks(v_.canon()) for _n, t_, v_ in pe.log) or any(MK_ in _toks(str(ix_)) or MK_ in _toks(v_.canon()) for _n, _b, ix_, v_ in pe.effects)
+        cached = sorted(a_ for a_ in derived if re.search(rf"self\.{re.escape(a_)}\b", txt))
+        if cached and not used and MK_ not in _toks(txt) and not _unread(txt) and not re.search(r"self\.\w+\(", txt):
+            # the distribution is read from derived state (computed from the mask at an earlier call): derived-state coherence
+            r_ = _cache_coherence(repo, nf, PER, pbm[0], pb, cached, conds, b, c3call, s3, n3, len_ok, MK_)
+            if r_[0] == "stale":
+                stale = r_
+            continue
         if not used and MK_ not in _toks(txt) and not _unread(txt) and not re.search(r"self\.\w+\(", txt) and "self.priority" in txt:
             unmasked.append(txt)    # the sampled distribution was read completely and no statement of the path uses the mask
         else:
             raise AnalysisError(f"PriorityBuffer.prioritized_sampling: on a path where a mask is given the sampled indices are `{txt[:120]}` (unrecognised form)")
+    if stale is not None:
+        ck.ob("R4-start-from-mask", RB + "PriorityBuffer.prioritized_sampling", f"stale-derived:{stale[1]}", False, stale[2], stale[3], loc(mipb, pb))
     if masked_paths == 0:
         raise AnalysisError("PriorityBuffer.prioritized_sampling: no path on which a mask is given (unrecognised idiom)")
     ck.ob("R4-start-from-mask", RB + "PriorityBuffer.prioritized_sampling", "mask-multiplied", not unmasked, f"{masked_paths} path(s) with a mask: sampled distribution uses priority[:len] * mask[:len]" if not unmasked else f"with a mask given: {unmasked[0][:150]}",
@@ -1083,6 +1401,14 @@ MUTANTS = [
     {"id": "c04-enable-on-short-episode", "file": _F, "rule": "R2", "find": "        if self.episode_timesteps > self.horizon:\n            self.mask_[(self.insert_idx - self.horizon) % self.buffer_size] = 1\n", "replace": "        if self.episode_timesteps > self.horizon:\n            self.mask_[(self.insert_idx - self.horizon) % self.buffer_size] = 1\n        else:\n            self.mask_[(self.insert_idx - self.horizon) % self.buffer_size] = 1\n"},
     {"id": 'c04-tail-shifted-by-one', "file": _F, "rule": 'R3', "find": '            past_idx = (\n                self.insert_idx\n                - np.arange(min(self.episode_timesteps, self.horizon))\n                - 1\n            ) % self.buffer_size\n', "replace": '            n_tail = min(self.episode_timesteps, self.horizon)\n            past_idx = (self.insert_idx - np.arange(n_tail)) % self.buffer_size\n'},
     {"id": 'c04-tail-one-slot-too-many', "file": _F, "rule": 'R3', "find": '            past_idx = (\n                self.insert_idx\n                - np.arange(min(self.episode_timesteps, self.horizon))\n                - 1\n            ) % self.buffer_size\n', "replace": '            n_tail = min(self.episode_timesteps, self.horizon) + 1\n            past_idx = (self.insert_idx - 1 - np.arange(n_tail)) % self.buffer_size\n'},
+    {"id": 'c04-successor-row-loop-keeps-observation', "file": _F, "rule": 'R3', "find": '            for k in self.buffer:\n                if k == "reward":\n                    self.buffer[k][self.insert_idx] = 0.0\n                else:\n                    self.buffer[k][self.insert_idx] = sample[k]\n            self.buffer["observation"][self.insert_idx] = sample[\n                "next_observation"\n            ]\n', "replace": '            for k in self.buffer:\n                if k == "reward":\n                    self.buffer[k][self.insert_idx] = 0.0\n                elif k == "next_observation":\n                    self.buffer[k][self.insert_idx] = sample["next_observation"]\n                else:\n                    self.buffer[k][self.insert_idx] = sample[k]\n'},
+    {"id": 'c04-successor-row-loop-wrong-slot', "file": _F, "rule": 'R3', "find": '            for k in self.buffer:\n                if k == "reward":\n                    self.buffer[k][self.insert_idx] = 0.0\n                else:\n                    self.buffer[k][self.insert_idx] = sample[k]\n            self.buffer["observation"][self.insert_idx] = sample[\n                "next_observation"\n            ]\n', "replace": '            for name, arr in self.buffer.items():\n                if name == "observation":\n                    arr[self.insert_idx - 1] = sample["next_observation"]\n                    arr[self.insert_idx] = sample["observation"]\n                elif name != "reward":\n                    arr[self.insert_idx] = sample[name]\n                else:\n                    arr[self.insert_idx] = 0.0\n'},
+    {"id": 'c04-tail-enabled-when-terminated-and-truncated', "file": _F, "rule": 'R3', "find": '            self.mask_[past_idx] = (\n                0 if sample["truncated"] else 1\n            )  # mask out truncated subtrajectories\n', "replace": '            if sample["terminated"]:\n                self.mask_[past_idx] = 1\n'},
+    {"id": 'c04-tail-only-on-termination-full-horizon', "file": _F, "rule": 'R3', "find": '            self.mask_[past_idx] = (\n                0 if sample["truncated"] else 1\n            )  # mask out truncated subtrajectories\n', "replace": '            if sample["truncated"]:\n                pass\n            else:\n                reach = self.horizon\n                self.mask_[(self.insert_idx - 1 - np.arange(reach)) % self.buffer_size] = 1\n'},
+    {'id': 'c04-sampler-cdf-cache-keyed-on-length', 'file': _F, 'rule': 'R4', 'edits': [('        self.sampled_indices = np.empty(0, dtype=int)\n\n    def initialize_priority', '        self.sampled_indices = np.empty(0, dtype=int)\n        self._cdf = None\n\n    def initialize_priority'), ('        priority = self.priority[:current_len]\n        if mask is not None:\n            priority = priority * mask[:current_len]\n        probabilities = np.cumsum(priority)\n        random_uniforms', '        if self._cdf is None or self._cdf.shape[0] != current_len:\n            weights = self.priority[:current_len]\n            if mask is not None:\n                weights = weights * mask[:current_len]\n            self._cdf = np.cumsum(weights)\n        probabilities = self._cdf\n        random_uniforms'), ('        self.max_priority = max(np.max(priority), self.max_priority)\n', '        self.max_priority = max(np.max(priority), self.max_priority)\n        self._cdf = None\n')]},
+    {'id': 'c04-sampler-cdf-cache-never-refreshed-on-add', 'file': _F, 'rule': 'R4', 'edits': [('        self.sampled_indices = np.empty(0, dtype=int)\n\n    def initialize_priority', '        self.sampled_indices = np.empty(0, dtype=int)\n        self._cdf = None\n\n    def initialize_priority'), ('        priority = self.priority[:current_len]\n        if mask is not None:\n            priority = priority * mask[:current_len]\n        probabilities = np.cumsum(priority)\n        random_uniforms', '        if self._cdf is None:\n            weights = self.priority[:current_len]\n            if mask is not None:\n                weights = weights * mask[:current_len]\n            self._cdf = np.cumsum(weights)\n        probabilities = self._cdf\n        random_uniforms'), ('        self.max_priority = max(np.max(priority), self.max_priority)\n', '        self.max_priority = max(np.max(priority), self.max_priority)\n        self._cdf = None\n')]},
+    {'id': 'c04-sampler-never-consults-mask', 'file': _F, 'rule': 'R4', 'nth': 0, 'find': '        priority = self.priority[:current_len]\n        if mask is not None:\n            priority = priority * mask[:current_len]\n', 'replace': '        priority = self.priority[:current_len]\n'},
+    {'id': 'c04-successor-row-from-unedited-copy', 'file': _F, 'rule': 'R3', 'find': '            for k in self.buffer:\n                if k == "reward":\n                    self.buffer[k][self.insert_idx] = 0.0\n                else:\n                    self.buffer[k][self.insert_idx] = sample[k]\n            self.buffer["observation"][self.insert_idx] = sample[\n                "next_observation"\n            ]\n', 'replace': '            final = dict(sample)\n            final["reward"] = 0.0\n            for k in self.buffer:\n                self.buffer[k][self.insert_idx] = final[k]\n'},
 ]
 BENIGN = [
     {"id": "c04-b-sampler-inplace-mask", "file": _F, "nth": 0, "find": "            priority = priority * mask[:current_len]", "replace": "            priority = priority.copy()\n            priority *= mask[:current_len]"},
@@ -1110,4 +1436,15 @@ BENIGN = [
     {"id": 'c04-b-start-draw-in-mixin', "file": _F, "edits": [('    def _sample_idx(\n        self, batch_size: int, rng: np.random.Generator\n    ) -> npt.NDArray[int]:\n        nz = np.nonzero(self.mask_)[0]\n        indices = rng.integers(0, len(nz), size=batch_size)\n        return nz[indices]\n\n', ''), ('class SubtrajectoryReplayBuffer:\n', 'class _UniformStarts:\n    def _sample_idx(\n        self, batch_size: int, rng: np.random.Generator\n    ) -> npt.NDArray[int]:\n        nz = np.nonzero(self.mask_)[0]\n        indices = rng.integers(0, len(nz), size=batch_size)\n        return nz[indices]\n\n\nclass SubtrajectoryReplayBuffer(_UniformStarts):\n')]},
     {"id": 'c04-b-ring-helpers-in-mixin', "file": _F, "edits": [('class SubtrajectoryReplayBuffer:\n', 'class _RingMixin:\n    def _advance(self):\n        self.insert_idx = (self.insert_idx + 1) % self.buffer_size\n        self.current_len = min(self.current_len + 1, self.buffer_size)\n\n\nclass SubtrajectoryReplayBuffer(_RingMixin):\n'), ('        self.current_len = min(self.current_len + 1, self.buffer_size)\n        self.episode_timesteps += 1', '        self.episode_timesteps += 1'), ('        inserted_at = [self.insert_idx]\n        self.insert_idx = (self.insert_idx + 1) % self.buffer_size\n', '        inserted_at = [self.insert_idx]\n        self._advance()\n'), ('            inserted_at += [self.insert_idx]\n            self.insert_idx = (self.insert_idx + 1) % self.buffer_size\n            self.current_len = min(self.current_len + 1, self.buffer_size)\n', '            inserted_at += [self.insert_idx]\n            self._advance()\n')]},
     {"id": 'c04-b-window-outer-sum', "file": _F, "find": '        indices = (\n            indices[:, np.newaxis] + np.arange(horizon)[np.newaxis]\n        ) % self.current_len\n', "replace": '        indices = np.add.outer(indices, np.arange(horizon)) % self.current_len\n'},
+    {"id": 'c04-b-successor-row-in-items-loop', "file": _F, "find": '            for k in self.buffer:\n                if k == "reward":\n                    self.buffer[k][self.insert_idx] = 0.0\n                else:\n                    self.buffer[k][self.insert_idx] = sample[k]\n            self.buffer["observation"][self.insert_idx] = sample[\n                "next_observation"\n            ]\n', "replace": '            for name, arr in self.buffer.items():\n                if name == "observation":\n                    arr[self.insert_idx] = sample["next_observation"]\n                elif name != "reward":\n                    arr[self.insert_idx] = sample[name]\n                else:\n                    arr[self.insert_idx] = 0.0\n'},
+    {"id": 'c04-b-successor-row-keys-loop-elif', "file": _F, "find": '            for k in self.buffer:\n                if k == "reward":\n                    self.buffer[k][self.insert_idx] = 0.0\n                else:\n                    self.buffer[k][self.insert_idx] = sample[k]\n            self.buffer["observation"][self.insert_idx] = sample[\n                "next_observation"\n            ]\n', "replace": '            row = self.insert_idx\n            for k in self.buffer.keys():\n                if k == "reward":\n                    self.buffer[k][row] = 0.0\n                elif "observation" == k:\n                    self.buffer[k][row] = sample["next_observation"]\n                else:\n                    self.buffer[k][row] = sample[k]\n'},
+    {"id": 'c04-b-tail-noop-store-omitted', "file": _F, "find": '            self.mask_[past_idx] = (\n                0 if sample["truncated"] else 1\n            )  # mask out truncated subtrajectories\n', "replace": '            if not sample["truncated"]:\n                self.mask_[past_idx] = 1\n'},
+    {"id": 'c04-b-tail-noop-store-pass-branch', "file": _F, "find": '            self.mask_[past_idx] = (\n                0 if sample["truncated"] else 1\n            )  # mask out truncated subtrajectories\n', "replace": '            if sample["truncated"]:\n                pass  # these slots were never enabled\n            else:\n                self.mask_[past_idx] = True\n'},
+    {'id': 'c04-b-sampler-cdf-cache-invalidated-on-add', 'file': _F, 'edits': [('        self.sampled_indices = np.empty(0, dtype=int)\n\n    def initialize_priority', '        self.sampled_indices = np.empty(0, dtype=int)\n        self._cdf = None\n\n    def initialize_priority'), ('        priority = self.priority[:current_len]\n        if mask is not None:\n            priority = priority * mask[:current_len]\n        probabilities = np.cumsum(priority)\n        random_uniforms', '        if self._cdf is None:\n            weights = self.priority[:current_len]\n            if mask is not None:\n                weights = weights * mask[:current_len]\n            self._cdf = np.cumsum(weights)\n        probabilities = self._cdf\n        random_uniforms'), ('        self.max_priority = max(np.max(priority), self.max_priority)\n', '        self.max_priority = max(np.max(priority), self.max_priority)\n        self._cdf = None\n'), ('        self.priority[insert_idx] = self.max_priority\n', '        self.priority[insert_idx] = self.max_priority\n        self._cdf = None\n')]},
+    {'id': 'c04-b-sampler-cdf-cache-invalidated-by-buffer', 'file': _F, 'edits': [('        self.sampled_indices = np.empty(0, dtype=int)\n\n    def initialize_priority', '        self.sampled_indices = np.empty(0, dtype=int)\n        self._cdf = None\n\n    def initialize_priority'), ('        priority = self.priority[:current_len]\n        if mask is not None:\n            priority = priority * mask[:current_len]\n        probabilities = np.cumsum(priority)\n        random_uniforms', '        if self._cdf is None or len(self._cdf) != current_len:\n            weights = self.priority[:current_len]\n            if mask is not None:\n                weights = weights * mask[:current_len]\n            self._cdf = np.cumsum(weights)\n        probabilities = self._cdf\n        random_uniforms'), ('        self.max_priority = max(np.max(priority), self.max_priority)\n', '        self.max_priority = max(np.max(priority), self.max_priority)\n        self._cdf = None\n'), ('        inserted_at = super().add_sample(**sample)\n        self.priority.initialize_priority(inserted_at)\n\n    def _sample_idx(\n        self, batch_size: int, rng: np.random.Generator\n    ) -> npt.NDArray[int]:\n        return self.priority.prioritized_sampling(', '        inserted_at = super().add_sample(**sample)\n        self.priority._cdf = None\n        self.priority.initialize_priority(inserted_at)\n\n    def _sample_idx(\n        self, batch_size: int, rng: np.random.Generator\n    ) -> npt.NDArray[int]:\n        return self.priority.prioritized_sampling(')]},
+    {'id': 'c04-b-tail-terminated-and-not-truncated', 'file': _F, 'find': '            self.mask_[past_idx] = (\n                0 if sample["truncated"] else 1\n            )  # mask out truncated subtrajectories\n', 'replace': '            if sample["terminated"] and not sample["truncated"]:\n                self.mask_[past_idx] = 1\n'},
+    {'id': 'c04-b-successor-row-loop-conditional-expression', 'file': _F, 'find': '            for k in self.buffer:\n                if k == "reward":\n                    self.buffer[k][self.insert_idx] = 0.0\n                else:\n                    self.buffer[k][self.insert_idx] = sample[k]\n            self.buffer["observation"][self.insert_idx] = sample[\n                "next_observation"\n            ]\n', 'replace': '            for k in self.buffer:\n                self.buffer[k][self.insert_idx] = 0.0 if k == "reward" else sample["next_observation" if k == "observation" else k]\n'},
+    {'id': 'c04-b-successor-row-from-edited-copy', 'file': _F, 'find': '            for k in self.buffer:\n                if k == "reward":\n                    self.buffer[k][self.insert_idx] = 0.0\n                else:\n                    self.buffer[k][self.insert_idx] = sample[k]\n            self.buffer["observation"][self.insert_idx] = sample[\n                "next_observation"\n            ]\n', 'replace': '            final = dict(sample)\n            final["reward"] = 0.0\n            final["observation"] = sample["next_observation"]\n            for k in self.buffer:\n                self.buffer[k][self.insert_idx] = final[k]\n'},
+    {'id': 'c04-b-sampler-cdf-cache-invalidated-through-helper', 'file': _F, 'edits': [('        self.sampled_indices = np.empty(0, dtype=int)\n\n    def initialize_priority', '        self.sampled_indices = np.empty(0, dtype=int)\n        self._cdf = None\n\n    def initialize_priority'), ('        priority = self.priority[:current_len]\n        if mask is not None:\n            priority = priority * mask[:current_len]\n        probabilities = np.cumsum(priority)\n        random_uniforms', '        if self._cdf is None:\n            weights = self.priority[:current_len]\n            if mask is not None:\n                weights = weights * mask[:current_len]\n            self._cdf = np.cumsum(weights)\n        probabilities = self._cdf\n        random_uniforms'), ('        self.max_priority = max(np.max(priority), self.max_priority)\n', '        self.max_priority = max(np.max(priority), self.max_priority)\n        self._cdf = None\n'), ('        self.priority[insert_idx] = self.max_priority\n', '        self.priority[insert_idx] = self.max_priority\n        self._touch()\n\n    def _touch(self):\n        self._cdf = None\n')]},
+    {'id': 'c04-b-sampler-mask-defaults-to-ones', 'file': _F, 'nth': 0, 'find': '        priority = self.priority[:current_len]\n        if mask is not None:\n            priority = priority * mask[:current_len]\n', 'replace': '        if mask is None:\n            mask = np.ones(current_len, dtype=int)\n        priority = self.priority[:current_len] * mask[:current_len]\n'},
 ]
